@@ -22,6 +22,10 @@ CHECKS = {
    technique="exhaustive enumeration of the time-specification lattice over a 4-point grid (every int, slice, ordered subset, float, float interval; both argument positions; both time orders; pairs of subsets/intervals) through the real compute_correlations(_nt), exact table from a first-principles system+ancilla simulation",
    text="Every time specification over a grid of N=3 steps is fed to the real compute_correlations in both positions and both time orders, all 64x64 pairs of ordered subsets and 16x16 pairs of intervals are combined, 3- and 4-time correlations run over a reduced product with all left/right patterns; returned axes, NaN pattern and every entry are compared with the exact multi-time correlation table of an ancilla environment (and, for a PT-TEMPO process tensor, with a table from explicit compute_dynamics runs). dt-argument family, anti/ordered conjugation relation, and the bath occupation/correlation closed forms for pure-dephasing models (plus the occupation time-axis lattice N<=60/150 x 7 dt) are checked too. Exhaustive over the N=3 lattice only.",
    note="Trusts mc/refmodel.py; empty and out-of-range selections may raise or return empty arrays; dw != 1 is outside the stated quantifier."),
+ "C14": dict(category="model_checking", design="4/C14",
+   technique="explicit enumeration of all API-call histories up to depth 3/4 over a 5-step grid on fresh real objects, plus exhaustive single-fault injection at every invocation index of every user callable, against the single-call reference",
+   text="For Tempo (full memory and dkmax=2), MeanFieldTempo (1 and 2 systems), PtTebd every history over {compute(t_j) for all grid targets j, get} up to depth 3 (quick) / 4 (thorough) is replayed on a fresh object and after every operation the dynamics must equal the single-call reference truncated at the furthest target; PtTempo and GibbsTempo: all histories over {compute, fetch} up to depth 3; chain restart at every intermediate step; a transient exception is injected at every invocation index of every wrapped user callable (bound 1; strided pairs in thorough) and compute() repeated: same result or fails again. Exhaustive within depth, grid and fault bound.",
+   note="Tolerance 1e-6 at epsrel 1e-10 (separately executed truncated networks are reproducible only to ~10*epsrel). One non-transactional path of MeanFieldTempo is a recorded known finding."),
 }
 NOT_YET = "check not built yet in this round (see DESIGN.md sec. 8 build order)"
 
